@@ -946,3 +946,75 @@ def _wrap_getitem(mon, orig):
                 mon.depth -= 1
         return out
     return __getitem__
+
+
+# ------------------------------------------------------------------------------
+# C13: generic purity monitor (every public callable, enumerated with inspect)
+# ------------------------------------------------------------------------------
+
+PURITY_MODULES = ('io', 'transform', 'gate', 'stats', 'mef', 'plot')
+
+
+def _attach_purity(self):
+    import inspect
+    from rv.fingerprint import fp
+    self.purity_calls = {}
+    self.purity_targets = []
+    for mname in PURITY_MODULES:
+        m = getattr(self.F, mname)
+        for n, f in inspect.getmembers(m, inspect.isfunction):
+            if n.startswith('_') or f.__module__ != m.__name__:
+                continue
+            q = '%s.%s' % (mname, n)
+            self.purity_targets.append(q)
+            self.rebind(m, n, (lambda qq: (lambda orig: _wrap_pure(self, orig, qq)))(q))
+    cls = self.F.io.FCSData
+    nd = set(dir(np.ndarray))
+    for n, f in inspect.getmembers(cls, inspect.isfunction):
+        if n.startswith('_') or n in nd:
+            continue
+        q = 'io.FCSData.%s' % n
+        self.purity_targets.append(q)
+        self.rebind(cls, n, (lambda qq: (lambda orig: _wrap_pure(self, orig, qq)))(q))
+
+
+Monitors.attach_purity = _attach_purity
+
+
+def _wrap_pure(mon, orig, q):
+    from rv.fingerprint import fp, diff
+
+    def pure(*a, **k):
+        if mon.depth > 0:           # fingerprinting itself calls accessors: do not recurse
+            return orig(*a, **k)
+        mon.depth += 1
+        try:
+            before = [fp(x) for x in a] + [fp(k[key]) for key in sorted(k)]
+            dflt = fp(getattr(orig, '__defaults__', None))
+        finally:
+            mon.depth -= 1
+        try:
+            return orig(*a, **k)
+        finally:
+            mon.depth += 1
+            try:
+                after = [fp(x) for x in a] + [fp(k[key]) for key in sorted(k)]
+                names = ['arg%d' % i for i in range(len(a))] + sorted(k)
+                mon.purity_calls[q] = mon.purity_calls.get(q, 0) + 1
+                mon.ctx.counters['chk:purity'] += 1
+                for nm, b, c in zip(names, before, after):
+                    if b != c:
+                        mon.ctx.counters['checks'] += 1
+                        mon.ctx.violation('purity:%s:argument-changed' % q, mon.cid, argument=nm, first_diff=diff(b, c),
+                                          workload=mon.tag, template=getattr(mon, 'template', None))
+                    else:
+                        mon.ctx.counters['checks'] += 1
+                d2 = fp(getattr(orig, '__defaults__', None))
+                if d2 != dflt:
+                    mon.ctx.violation('purity:%s:default-argument-changed' % q, mon.cid, first_diff=diff(dflt, d2), workload=mon.tag)
+            except Exception as e:   # noqa
+                mon.ctx.counters['oracle_errors'] += 1
+                mon.ctx.note('oracle-error purity %s: %s' % (q, core.exc_str(e)))
+            finally:
+                mon.depth -= 1
+    return pure
